@@ -172,6 +172,38 @@ def jobs(chk, tier):
                 yield (r, g, 'nearmiss-diag', sd)
 
 
+def tapered_tolerance_cases():
+    """the matching tolerance is 1/1000 of the SHORTEST segment also when the first segment of an
+       object is not its shortest (wire tapered from end 2 or from both ends, radius-tapered helix)"""
+    from mininec.mininec import Mininec, Wire, Helix
+    bad = []
+    n = 0
+    for st in (2, 3, 1):
+        a = Wire(7, 0, 0, 10, 14, 0, 10, 0.001)
+        a.segtype = st
+        m0 = Mininec(10.0, [a])
+        lens = [s.seg_len for s in m0.geo[0].segments]
+        smin, sfirst, slast = min(lens), lens[0], lens[-1]
+        # end of the wire where the other wire is attached: end 2 for st 2/3, end 1 for st 1
+        for factor, joined in ((0.4, True), (1.6, False)):
+            d = factor * 1e-3 * smin
+            if st == 1:
+                start = (0.0, d, 10.0)
+            else:
+                start = (14.0, d, 10.0)
+            a = Wire(7, 0, 0, 10, 14, 0, 10, 0.001)
+            a.segtype = st
+            b = Wire(3, start[0], start[1], start[2], start[0], start[1] + 9.0, 13.0, 0.001)
+            m = Mininec(10.0, [a, b])
+            want = 6 + 2 + (1 if joined else 0)
+            n += 1
+            if len(m.pulses) != want:
+                bad.append(dict(what='tapered-matching-tolerance', segtype=st, distance_over_tol=factor,
+                                pulses=len(m.pulses), want=want,
+                                first_segment_is_shortest=abs(sfirst - smin) < 1e-12))
+    return bad, n
+
+
 def run(tier):
     chk = C.Check(PID, tier, 'model_checking')
     chk.assumptions = [
@@ -191,6 +223,10 @@ def run(tier):
         for mm in o['mism']:
             chk.violation(dict(kind='mismatch', field=mm.split(':')[0], mode=mode),
                           dict(input=inp, ground=g, mode=mode, field=mm, spec=r))
+    tb, tn = tapered_tolerance_cases()
+    chk.case('tapered-tolerance', True, n=tn)
+    for b in tb:
+        chk.violation(dict(kind=b['what'], segtype=b['segtype']), b)
     return chk.finish(
         rule='every final state printed by the TLC runs is one case per concretisation mode (exact, '
              'jitter below the matching tolerance, near-miss above it); non-trivial = at least two '
